@@ -24,6 +24,19 @@ CHECKS["C15"] = dict(
     note="Trusted: pysym interpreter/models, z3. 'digit string' is read as ASCII decimal digits. Values outside the alphabets, longer than 9 characters, or of other types are outside the claim.",
     ref="§4 C15")
 
+CHECKS["C03"] = dict(
+    text="Every text up to the stated length over the splitter alphabet (one representative per character class of the mark regex), alone and between/after concrete well-formed blocks, is run symbolically through the real Splitter (regex handled by a parse-tree-driven model of re.finditer); per final world z3 decides that raws are contiguous input runs in order, gaps are whitespace, start_line equals the newline count before the raw, and same-line fields report their line.",
+    note="Trusted: pysym interpreter/models incl. the re.finditer model (validated per world against the real splitter on solver models), z3. Alphabet and lengths are the bound.",
+    ref="§4 C03")
+CHECKS["C10"] = dict(
+    text="The value is a symbolic string (all strings up to the bound over braces/quotes/#/blank/letter/digit/backslash) or a symbolic int; every option combination of AddEnclosing, both block kinds, with and without prior removal, and the re-parse clause through the real Splitter are executed symbolically; z3 decides each clause against an oracle transcribed from the statement.",
+    note="Trusted: pysym interpreter/models, z3. Re-parse clause restricted as in the statement (escape-aware brace balance, no trailing backslash, no bare quote for the quote default).",
+    ref="§4 C10")
+CHECKS["C14"] = dict(
+    text="One symbolic name (function pair), two symbolic names joined by ' and ' (the four middlewares) and a symbolic name inside '@a{k, author = {NAME}}' (parse_string with appended middlewares, write_string with prepended inverses, re-parse) are executed symbolically; z3 decides, under the statement's preconditions evaluated on the symbolic result, that the re-split parts equal the first parts.",
+    note="Trusted: pysym interpreter/models (deepcopy is the interpreted stdlib copy module), z3. Bounds in evidence.",
+    ref="§4 C14")
+
 NOT_YET = "check not built yet in this round (engine exists; harness pending)"
 
 def main():
